@@ -155,6 +155,15 @@ pub fn check_c02(v: &View) -> Findings {
             format!("EOF at {} but len {n}", last.b0),
         ));
     }
+    // "at the end of the text" in the character view too (the bulk view's start/stop, which
+    // callers slice text with, are character offsets)
+    if last.ty == TokenType::EOF && last.b0 == n && last.c0 as usize != v.src.chars().count() {
+        f.push(Finding::new(
+            "C02.eof",
+            "char-offset-not-at-end",
+            format!("EOF at character offset {} but the text has {} characters", last.c0, v.src.chars().count()),
+        ));
+    }
     if last.ty == TokenType::EOF && last.ch != TokenChannel::DEFAULT {
         f.push(Finding::new("C02.eof", "channel", "EOF not on default channel".into()));
     }
